@@ -73,6 +73,12 @@ def _oblige_index(interp, st, ok, node, what="index"):
 def getitem(interp, st, base, idx, node=None):
     M = _M()
     I = _I()
+    if isinstance(base, I.ObjMethod):
+        base = base.value
+    if I.is_obj(base):
+        # subscript of an opaque object: an unknown function of the object and the key
+        key = z3.StringVal(idx) if isinstance(idx, str) else to_z3(idx)
+        return z3.Function("obj.getitem!" + str(key.sort()), I.OBJ_SORT, key.sort(), I.OBJ_SORT)(base, key)
     if isinstance(base, Rec) and "__getitem__" in base.fields.get("__methods__", ()):  # pragma: no cover
         raise Outside("__getitem__ on record", node)
     if isinstance(base, tuple) or isinstance(base, list):
